@@ -661,4 +661,25 @@ def F8(m, R):
     nx = m.fn('%s.__next__' % ro.ITERATOR)
     from ..shapes import with_helpers
     uses = [x for g_ in with_helpers(m, nx, 1) for x in g_.walk() if isinstance(x, ast.Call) and call_name(x) == ro.IDFIND1]
-    R.check(bool(uses), nx, uses[0] if uses else nx.node, 'the iterator finds the marker to stop by identity', construct='iterator identity')
+    if not uses:
+        # the search written out in the iterator (or a helper of it): every comparison that guards the deletion from the active list is `is`
+        act = 'self.' + ro.ACTIVE
+        hosts = list(with_helpers(m, nx, 1))
+        dels = []
+        for g_ in hosts:
+            from ..shapes import local_aliases as _la, canon as _cn
+            al_ = _la(g_)
+            for x in g_.walk():
+                if isinstance(x, ast.Delete) and any(isinstance(t_, ast.Subscript) and _cn(t_.value, al_) == act for t_ in x.targets):
+                    guards = [p_.test for p_ in _parents(x) if isinstance(p_, ast.If)]
+                    cmps = [c_ for t_ in guards for c_ in ast.walk(t_) if isinstance(c_, ast.Compare)]
+                    dels.append((g_, x, cmps))
+        if dels and all(cmps and all(isinstance(c_.ops[0], (ast.Is, ast.IsNot)) for c_ in cmps) for _g, _x, cmps in dels):
+            R.ok(nx, dels[0][1], 'the iterator finds the marker to stop by identity (search written out with `is`)', construct='iterator identity')
+        elif dels and any(any(isinstance(c_.ops[0], (ast.Eq, ast.NotEq, ast.In, ast.NotIn)) for c_ in cmps) for _g, _x, cmps in dels):
+            R.viol(dels[0][0], dels[0][1], 'the iterator deletes the first active setting that compares equal (==): of two equal settings that overlap, the wrong one is stopped',
+                   construct='iterator identity')
+        else:
+            R.undecided(nx, nx.node, 'how the iterator finds the marker to stop was not recognised', construct='iterator identity')
+    else:
+        R.ok(nx, uses[0], 'the iterator finds the marker to stop by identity', construct='iterator identity')
